@@ -89,3 +89,12 @@ func specDnlKey(name enc.Name, nonce uint32) uint64 { return enc.SpecNameHash(na
 
 //@ func (PitEntry).GetOutRecords
 //@   ensures forallIn(0, len(result), func(i int) bool { return result[i] != nil })
+
+// ---------------------------------------------------------------------------------------
+// Producer-region table (C02: a forwarding hint is followed only OUTSIDE the producer region): IsProducer(name) says
+// whether some configured region name is a prefix of name (enc.SpecIsPrefix: component-wise, the region not longer).
+// ---------------------------------------------------------------------------------------
+
+//@ func (*networkRegionTable).IsProducer
+//@   ensures result == existsIn(0, len(n.table), func(i int) bool { return enc.SpecIsPrefix(n.table[i], name) })
+//@   loop 1 invariant forallIn(0, rangeindex+1, func(i int) bool { return !enc.SpecIsPrefix(n.table[i], name) })
